@@ -140,6 +140,18 @@ CLAIMED = {
             "manager, classifier and regressor on inputs with ties (duplicated / identical points, cold start), and TLC "
             "applies the memo clause to the digests of the complete results.",
             "DESIGN.md 5 (C06)", TRUST),
+    "C09": ("TLA+ module Encoding (order-preserving class renamings and sentinels commute with the label encoder: "
+            "EncodingInvariant, RoundTrip, DeclaredIsIdentity) model-checked by TLC; paired observations of the real "
+            "strategies and classifiers under 4-7 encodings validated by EquivTrace",
+            "TLC checks on the model that the internal integers produced by the label encoder do not depend on the "
+            "strictly increasing renaming of the classes nor on the sentinel, for all label arrays up to length 4 over "
+            "3 classes and all renamings into a code set with negative numbers; every classification pool strategy "
+            "configuration (on TLC-enumerated pool scenarios) and every classifier of the package is then run on the "
+            "same abstract scenario under float/NaN, int/-1, 10-20/-1, 10.0-20.0/NaN, str/'unlabeled', object/None and "
+            "negative-int/99 encodings with missing_label and classes set consistently, and TLC compares utilities per "
+            "sample, the selected sample, predict_proba per (probe, class index), the index of the predicted class and "
+            "the order of classes_ with the first encoding.",
+            "DESIGN.md 5 (C09)", TRUST),
 }
 
 NOT_YET = {}
